@@ -113,15 +113,15 @@ var c15Srcs = map[string]string{
 	"fail-nested-vars":   "a = \"leak-a\"\ns = \"leak-s\"\nw = \"leak-w\"\nn = 99\nadd_pattern(\"leakp\", \"x+\")\nif true {\n  for i = 0; i < 2; i = i + 1 {\n    q = 1 / (1 - i)\n  }\n}\np(\"unreachable\")\n",
 	"fail-in-use-branch": "x = \"caller-private\"\nok = \"stale-ok\"\nif true {\n  use(\"badrun.p\")\n}\n",
 	// the value of a call that returns nothing, used where a run-time error names the operand's type - before and after value-returning calls in the same run
-	"void-operand":       "x = drop_key(nosuchkey)\ny = x + 1\np(\"unreachable\")\n",
-	"void-iterable":      "for e in add_key(k9, 1) {\n  p(e)\n}\n",
-	"void-in":            "set_tag(k8, \"v\")\nz = 1 in rename(k7, k8)\np(z)\n",
-	"void-compound":      "x = 1\nx += cast(f1, \"int\")\np(x)\n",
-	"void-after-len":     "n = len(\"abc\")\nx = drop_key(nosuchkey)\ny = x - n\n",
-	"void-unary":         "x = -set_tag(k6, \"v\")\np(x)\n",
-	"reader":             "p(a, s, w, n, x, ok, q, i, b)\nadd_key(seen_a, a)\nadd_key(seen_x, x)\n",
-	"reader-use":         "use(\"reader2.p\")\np(a, x)\n",
-	"reader2":            "p(a, s, w, n, x, ok)\n",
+	"void-operand":   "x = drop_key(nosuchkey)\ny = x + 1\np(\"unreachable\")\n",
+	"void-iterable":  "for e in add_key(k9, 1) {\n  p(e)\n}\n",
+	"void-in":        "set_tag(k8, \"v\")\nz = 1 in rename(k7, k8)\np(z)\n",
+	"void-compound":  "x = 1\nx += cast(f1, \"int\")\np(x)\n",
+	"void-after-len": "n = len(\"abc\")\nx = drop_key(nosuchkey)\ny = x - n\n",
+	"void-unary":     "x = -set_tag(k6, \"v\")\np(x)\n",
+	"reader":         "p(a, s, w, n, x, ok, q, i, b)\nadd_key(seen_a, a)\nadd_key(seen_x, x)\n",
+	"reader-use":     "use(\"reader2.p\")\np(a, x)\n",
+	"reader2":        "p(a, s, w, n, x, ok)\n",
 	// the same grok pattern text under different script-local alias definitions
 	"grok-alias-digits":  "add_pattern(\"tok\", \"[0-9]+\")\nif true {\n  ok = grok(_, \"%{tok:w}\")\n  p(ok, w)\n}\n",
 	"grok-alias-letters": "add_pattern(\"tok\", \"[a-z]+\")\nif true {\n  ok = grok(_, \"%{tok:w}\")\n  p(ok, w)\n}\n",
